@@ -155,7 +155,7 @@ def handle (op : String) (args : List String) : Option String :=
       pure (outHex (translatorDecrypt C (← parseOpt hk) (← parseKV pub privs sym syms) (← parseKind k) (← ofHex d)))
   | "tr.queryhash", [hk, d] => do pure (outHex (generateQueryHash C (← parseOpt hk) (← ofHex d)))
   -- query dialect hkey [kv ×4] searchableCols cond params rows → rewritten condition, bound values, selected rows
-  | "query", [d, hk, pub, privs, sym, syms, cols, cond, params, rows] => do
+  | "query", [d, hk, pub, privs, sym, syms, cols, cond, params, rows, _variant] => do
       let sc ← parseCols cols
       let x : QCtx := { c := C, d := ← parseDialect d, hkey := ← parseOpt hk, kv := ← parseKV pub privs sym syms,
                         searchable := fun c => sc.contains c }
